@@ -253,6 +253,7 @@ inline bool knownActive(const char *id) {
 
 // ------------------------------------------------------------ rapidcheck run
 // body(src, ev) returns "" on success, otherwise a failure message.
+extern long g_shrinkBudget;   // property executions allowed for shrinking one failure (set before runRandom for heavy cases)
 void runRandom(const Opt &o, Ev &ev, const std::string &sub, int maxChoices, int nCases,
                const std::function<std::string(Src &, Ev &)> &body);
 
